@@ -6,28 +6,64 @@ COMMON_ASSUMPTIONS = [
     "hand-written oracles (reference decoders, registry tables, transition table) are trusted; a counterexample is reported only after native replay",
 ]
 
+def _m(outside, assumptions=(), **kw):
+    d = {"outside": list(outside), "assumptions": list(assumptions)}
+    d.update(kw)
+    return d
+
+
 META = {
-    "C01": {},
-    "C02": {
-        "outside": ["Ok-class payload bytes symbolic only up to 8 bytes (longer payloads: concrete zeros up to the 16640 cap)",
-                    "plaintext content parsing beyond framing is C03/C04"],
-        "assumptions": [],
-    },
-    "C03": {}, "C04": {}, "C05": {}, "C06": {}, "C07": {"e2": True},
-    "C08": {
-        "exhaustive": True,
-        "exhaustive_note": "exhaustive over the finite abstract domain 25 states x 21 message kinds x 2 directions x session-id presence x 256 alert severities (all symbolic); message payload contents bounded to <= 2-byte slices and <= 1-element lists",
-        "outside": ["message payloads longer than 2 bytes / lists longer than 1 element (the transition function never inspects them; not proven beyond that bound)"],
-        "assumptions": ["ChangeCipherSpec is not a handshake message: its direction is pinned by the oracle only where the property's flows pin it (server's final CCS, 0-RTT client CCS)"],
-    },
-    "C09": {}, "C10": {}, "C11": {}, "C12": {}, "C13": {}, "C14": {}, "C15": {}, "C16": {"e2": True}, "C17": {
+    "C01": _m(["inputs longer than each harness's byte bound (length *fields* and length *arguments* are symbolic over their full width)",
+               "operation histories of the defragmenter beyond base case + one inductive step / 2 calls (model callee)",
+               "heap clause: only result-container sizes within the byte bound; transient allocations inside nom are not measured",
+               "composite Debug output only for the listed small values (2-byte slices)"],
+              ["an unwinding-assertion failure in a C01 harness is treated as non-termination and reported after a native watchdog replay"]),
+    "C02": _m(["Ok-class payload bytes symbolic only up to 8 bytes (longer payloads: concrete zeros up to the 16640 cap)",
+               "plaintext content parsing beyond framing is C03/C04"]),
+    "C03": _m(["payloads longer than 4 (CCS), 5 (alert), 4 (application data), 8 (heartbeat), 9 (handshake list) bytes",
+               "multi-message handshake payloads are checked with the 15 body parsers stubbed (list logic); bodies: C04",
+               "one-step == two-step by transitivity through one oracle, not by a joint run"]),
+    "C04": _m(["bodies longer than the per-harness bounds; list elements compared element-wise only in concrete-shape harnesses (<= 3 ciphers)",
+               "Ok decoding of 32767-entry cipher lists / 2^24-1-byte bodies (length fields are symbolic, payloads of that size are not)"],
+              ["three-valued oracle: extension-block length overrunning the body and trailing bytes inside a body are don't-care"]),
+    "C05": _m(["content longer than 12 bytes; one or two content lengths per type in the quick tier (type x length matrix in the thorough tier)",
+               "lists of more than 2 extensions"],
+              ["client/server dispatchers may answer Unknown for a type they do not know, never a different typed variant"]),
+    "C06": _m(["suffixes longer than one byte are covered by induction over the buffer bound of each harness, not beyond it",
+               "dispatching parsers only with concrete type and declared length"]),
+    "C07": _m(["the real payload parser only for the empty-first-fragment heartbeat history; everything else uses a model callee (composition argument)",
+               "more than 2 calls in the quick tier (inductive step from an arbitrary valid state covers longer histories for the model callee)",
+               "Vec growth at 10 MiB is not executed symbolically; the guard arithmetic is decided over 64-bit bit-vectors from MIR"],
+              ["valid in-progress state = non-CCS/alert type and buffered bytes still cut short for the payload parser",
+               "core::num::saturating_add has its documented semantics"], e2=True),
+    "C08": _m(["message payloads longer than 2 bytes / lists longer than 1 element (the transition function never inspects them; not proven beyond that bound)"],
+              ["ChangeCipherSpec is not a handshake message: its direction is pinned by the oracle only where the property's flows pin it (server's final CCS, 0-RTT client CCS)"],
+              exhaustive=True,
+              exhaustive_note="exhaustive over the finite abstract domain 25 states x 21 message kinds x 2 directions x session-id presence x 256 alert severities (all symbolic); message payload contents bounded to <= 2-byte slices and <= 1-element lists"),
+    "C09": _m(["lists of more than 1 cipher / plaintext records containing messages (thorough tier only)", "bodies of 64 KiB and more (24-bit length field beyond 16 bits)",
+               "re-serialization is argued from determinism + field-wise round trip + the normal-form harness, not executed on parsed values"],
+              ["serializer output is copied to a local array and the asserted header bytes re-imposed as constants before parsing (staging)"]),
+    "C10": _m(["bodies longer than 48 bytes; datagrams of several records are C16", "handshake list logic inside a DTLS record (many1 over the dispatcher) is not run"]),
+    "C11": _m(["one enclosing context per field"], exhaustive=True, exhaustive_note="each field over its whole 8/16-bit domain; the enclosing structure is one concrete instance"),
+    "C12": _m(["lookup by name for arbitrary strings (one registry name with one symbolic byte, thorough tier)", "names longer than 64 bytes"],
+              ["reference rows are read from /repo/scripts/tls-ciphersuites.txt by an independent reader; the frozen snapshot in oracle-data/ stands for 'IANA assignments present today'",
+               "name-token expectations only where the IANA name states them unambiguously (AEGIS MAC and ChaCha20 key bits are don't-care)"],
+              exhaustive=True, exhaustive_note="the id space (65536 values) is fully symbolic through the compiled phf map; every registry row is compared"),
+    "C13": _m(["fields longer than the 6-14 byte buffers (length fields symbolic)"]),
+    "C14": _m(["lists of two or more real SCTs (thorough tier); extensions/signatures longer than 4 bytes in the Ok class"]),
+    "C15": _m(["more than 2 advertised ciphers"], [], exhaustive=False),
+    "C16": _m(["end-to-end runs of the real multi-record parsers did not fit (many1 over TlsPlaintext/DTLSPlaintext times out); decided by lemma + wrapper shape + single-record properties"],
+              ["the step from the lemma (Copy output) to O = TlsPlaintext relies on many1/complete being parametric in the output type",
+               "MIR shape recognition is syntactic; an unrecognised shape is reported as inconclusive, not as a violation"], e2=True),
+    "C17": {
         "e2": True,
         "exhaustive": True,
         "exhaustive_note": "exhaustive over each code-point domain (all 256 / 65536 values of every newtype) in the bit-vector queries; the IANA table in oracle-data/registry.tsv is the trusted oracle",
         "outside": ["text of composite Debug output", "constants the crate defines that are not in oracle-data/registry.tsv are listed as constants_not_in_oracle, not judged"],
         "assumptions": ["MIR text format of the installed nightly; a function body the encoder does not fully understand is refused (reported), never partially encoded",
                         "fallback arm of the name tables is recognised syntactically (decimal + hex formatting of self.0); its exact text is decided on compiled code for TlsRecordType only"],
-    }, "C18": {
+    },
+    "C18": {
         "observations": True,
         "outside": ["that each configuration builds with the repository's own stable toolchain (Kani compiles with its pinned nightly)",
                     "agreement of parsers outside the re-run harness sets (C02/C03/C05/C13 quick subsets)"],
